@@ -549,21 +549,26 @@ def d7_persistence(chk, repo):
     # VTK writer
     v = FV(repo, "field.Field.to_vtk")
     perms = {}
+    names = _setname_map(v)
     for st in v.stmts():
         if isinstance(st, ast.Assign) and len(st.targets) == 1 and isinstance(st.targets[0], ast.Name):
             nm = st.targets[0].id
-            if nm in ("field_array", "valid_array"):
+            role = {"field": "field_array", "valid": "valid_array"}.get(names.get(nm))   # by the VTK array name it is given
+            if role:
                 t = v.term(st.value, at=st)
-                perms[nm] = (_find_transpose(v, t), t, st)
-    chk.require("field_array" in perms and "valid_array" in perms, "to_vtk: field_array/valid_array assignments not found")
+                perms[role] = (_find_transpose(v, t), t, st)
+    if not ("field_array" in perms and "valid_array" in perms):
+        chk.ob("field.Field.to_vtk::valid-permutation", False, "C08.D7",
+               f"to_vtk names its cell arrays {sorted(names.values())}: the arrays named 'field' and 'valid' that the reader looks for "
+               "are not both written", v.f)
+        return
     pf, pv = perms["field_array"][0], perms["valid_array"][0]
     ok = pf is not None and pv is not None and len(pf[0]) == 4 and pf[0][3] == 3 and tuple(pf[0][:3]) == tuple(pv[0]) \
         and v.eq(pf[1], v.spec("self.array")) and _base_is_valid(v, pv[1])
     chk.ob("field.Field.to_vtk::valid-permutation", ok, "C08.D7",
            f"data permuted by {pf and pf[0]}, validity by {pv and pv[0]}: the spatial parts must agree and apply to "
            "self.array / self.valid", v.f, perms["valid_array"][2])
-    names = _setname_map(v)
-    chk.ob("field.Field.to_vtk::valid-name", names.get("valid_array") == "valid" and names.get("field_array") == "field",
+    chk.ob("field.Field.to_vtk::valid-name", "valid" in names.values() and "field" in names.values(),
            "C08.D7", f"array names {names}: reader looks for 'valid' and 'field'", v.f)
     # VTK reader
     v = FV(repo, "io.vtk._FieldIO_VTK._from_vtk", self_type=FIELD)
@@ -584,10 +589,11 @@ def d7_persistence(chk, repo):
     # name lookup
     src_names = set()
     for n in ast.walk(v.f.node):
-        if isinstance(n, ast.Compare) and isinstance(n.left, ast.Name) and n.left.id == "name":
+        if isinstance(n, ast.Compare) and isinstance(n.left, ast.Name):
             for c in n.comparators:
-                if isinstance(c, ast.Constant) and isinstance(c.value, str):
-                    src_names.add(c.value)
+                for x in ast.walk(c):
+                    if isinstance(x, ast.Constant) and isinstance(x.value, str) and x.value in ("field", "valid", "norm"):
+                        src_names.add(x.value)
     chk.ob("io.vtk._from_vtk::array-names", {"field", "valid"} <= src_names, "C08.D7",
            f"reader distinguishes arrays named {sorted(src_names)}; must recognise 'field' and 'valid'", v.f)
 
